@@ -9,7 +9,7 @@ BASELINE = "cd /repo && /venv/bin/python -m pytest -ra -q -p no:cacheprovider --
 # appended to the level note: what was added after the seeded-change rounds and the growth phases (DESIGN 10, 11)
 EXTRA_NOTES = {
     "C01": "TLC lists the valid EMB words nearest to each SYNC pattern (MC_BurstNear) and the harness builds those voice bursts. Payload kinds are interleaved in every worker process, first rounds carry all-zero / all-one payload octets; EMB words of voice bursts are laid out by the harness from the QR(16,7,6) code. Every CSBK opcode, data header format and full link control of PDULayouts.tla (exported by MC_PDUExport, built by the C03 adapter with random in-range values) also goes through burst assembly; voice LC headers / terminators also carry GPS-info and talker-alias link controls. Voice bursts enter through every public entry point (from_bytes without a hint - the observation point the property names -, the constructor, from_bits); data bursts whose centre is EMB + 32 embedded bits are given as such.",
-    "C03": "Every other case is handled by an impolite caller that edits built and decoded objects in place afterwards; undefined element values are judged against the standard's reserved / manufacturer ranges (Elements.tla). Optional constructor arguments whose default is a value are left out in one case of seven (fixed length and bit survival judged); feature set id classes per 9.3.13 - unlisted manufacturer ids are an open known finding. Rate block octets are handed over as bytes, bytes subclass, bytearray and memoryview slice; the alias octets of talker alias link controls are among the arguments left out. Every element value is decoded twice (ascending, descending) and the serialised value of defined members is judged.",
+    "C03": "Every other case is handled by an impolite caller that edits built and decoded objects in place afterwards; undefined element values are judged against the standard's reserved / manufacturer ranges (Elements.tla). Optional constructor arguments whose default is a value are left out in one case of seven (fixed length and bit survival judged); feature set id classes per 9.3.13 - unlisted manufacturer ids are an open known finding. Rate block octets are handed over as bytes, bytes subclass, bytearray and memoryview slice; the alias octets of talker alias link controls are among the arguments left out. Every element value is decoded twice (ascending, descending) and the serialised value of defined members is judged. CSBK raw data / broadcast parameters are among the arguments left out.",
     "C04": "HRNP also on the relay path (received, field updated, sent on); error patterns aimed at indicators computed over re-serialised fields (fold-amplified, harness polynomial arithmetic); corruption records judged in slices of 400 000. Clause CorruptPduReportedIntact: an accepted corrupted PDU breaks the property also when its fields equal the original; HRNP around every HDAP family and as payload-less control packets. Errors that clear every set bit of a light CRC-32 of a confirmed last block (1500 per rate and run). ",
     "C05": "CRC-32 part incl. 00000000/00000001/80000000/FFFFFFFF; half of the callers reuse a mutable buffer for calculate, calculate, verify. Verifiers are offered structured wrong values (octets / bits in the other order, halves swapped, complement, neighbours, other mask). The CRC-32 part of the CRC-9 is also given as a number, zero included. Front-end inputs aimed by the code's algebra (Gaussian elimination over GF(2) on the affine front ends): check values all zeros / all ones / with a zero or all-one octet at either end. Front-end message lengths are walked through by a counter.",
     "C06": "Encoder outputs of a sweep are held and read after the last call; each repair result is read after the next call.",
@@ -21,12 +21,12 @@ EXTRA_NOTES = {
     "C12": "Opcodes interleaved, impolite caller, HRNP packet numbers aimed at the corners of ones-complement addition, GPS speeds over the whole NMEA range. Growth phases: per-opcode payload layouts of all 32 opcodes (HyteraPayloads.tla, drift), protocol detection (Detect.tla, MC_Detect), informational. GPS times / dates that collide with an 'absent' sentinel (midnight, 2000-01-01); option data also all zeros / all ones. Whole-number speeds also as int. Fix times with a sub-second part (judged on the whole seconds the hhmmss field holds). RCP pass-through payloads of 255..1024 octets.",
     "C13": "Growth phase MMDVM DMRD frames (MMDVM.tla, MC_MMDVM), informational. One frame in four is received twice with the first decoding edited in between; ids with zero / all-ones octets in each position. Call types cross every slot type; reserved segments also all zeros / all ones. The burst's own ids must equal the frame's (id 0 included); sync / wake-up frames carry arbitrary payloads incl. whole DMR bursts. Growth phase MMDVM client (MMDVMClient.tla, MC_MMDVMClient, Trace_MMDVMClient): the Homebrew login state machine in a closed loop with a master over lossy channels - liveness (refuted for the code as committed, proved with the missing timer branch) and an action property (refuted with two login requests in flight); TLC's counterexamples (-dumpTrace json) are replayed on the real class, random histories are judged by TLC; informational. Raw frames arrive as bytes, bytes subclass, bytearray and memoryview slice. One raw frame in seven is decoded from a memoryview of a receive buffer that is refilled before anything is read.",
     "C14": "Coordinates and info-times are read back through the library's own XML view; TLC judges in slices of 300 000 records. A share of the writer calls runs under an application's own decimal context / numpy error settings.",
-    "C15": "Buffers are also framed by the harness as the grammar says (not only by the library's serialiser); result codes incl. 0 and septet boundaries. Each document id's token table is decided by the document's name from the library's three token tables, not by LRRP.get_configuration; every id goes through the token lookup API; signed floats written by hand incl. minus zero; content-less result with result-code. Attribute tokens are compared with their token ids.",
+    "C15": "Buffers are also framed by the harness as the grammar says (not only by the library's serialiser); result codes incl. 0 and septet boundaries. Each document id's token table is decided by the document's name from the library's three token tables, not by LRRP.get_configuration; every id goes through the token lookup API; signed floats written by hand incl. minus zero; content-less result with result-code. Attribute tokens are compared with their token ids. The API phase asks for 'result' by name with content and for request-hor-acc with integral and fractional values.",
     "C16": "UCS-2 texts with 0x00/0x7F/0x80/0xFF octets in first, middle and last position; impolite caller. Texts and identifiers with blank / line-end / NUL / no-break-space / BOM edges. Responses are built from fields alone (no .context() by the harness), failure reasons also as plain integers, acknowledgements with an encoding, reserved bit compared exactly; a constructor that refuses in-range fields is a violation. One FirstHeader object for two messages built before either is serialised.",
     "C17": "Growth phase active peer (MC_HSTRPActive.tla: timer, loss, liveness; the real periodic_maintenance coroutine under virtual time), informational. One history in four starts with the own sequence counter a few answers before its 16-bit wrap-around (reachable state set through the public attribute). Growth phase two-service client (MC_HSTRPClient.tla) on the real HRNPClient.go under virtual time, informational. The registration answer must be readable (option flag says what follows the header); a REJECT is not acknowledged. A plain heartbeat heard while the link is down is answered by no datagram at all.",
     "C18": "Growth phase start-up sequence across both handlers on one storage (Trace_Startup.tla): P2P and RDAC monitors plus cross-handler storage clauses. Keep-alives of 9..14 octets and commands whose octets 4..8 look like a keep-alive / acknowledgement are in the alphabet. Growth phases: RDAC handler in a closed loop with a cooperating repeater over a faulty network and inside a running event loop (MC_RDACLoop.tla), the SNMP read after completion (SNMPWalk.tla, MC_SNMPWalk), informational. RDAC steps are read per peer (ip, port), two peers behind each address; served datagrams go to the stored outbound address or the requester only.",
-    "C19": "Catalogue also decodes every implemented Hytera opcode from generated PDUs with different values and builds them with default arguments; every signature family has a variant with caller-owned bytearrays; clock pass shifts the date by 38 years. Constructor parameters documented as 'number or buffer' get caller-owned buffers, three times over; the burst payload decoder is called twice on one caller-owned buffer for every data type; rejected / odd-ending rate-3/4 streams; every LRRP token by id and by name for both document families. Caller-configured CRC calculators (every switch of BitCrcConfiguration), byteswap_bytearray on caller-owned buffers, ARS responses built from fields serialised / measured / rendered in any order. Register workflow (init / update / digest) with caller configurations, the register tracked across digests; VBPTC column-parity helpers on caller-owned columns; numeric writers one at a time on rounding ties; the process-wide numeric context (decimal, numpy error state) is a watched cell. Presentation calls between parse and encode (mbxml_render).",
-    "C20": "Source states of replayed edges are set up with the specification's own operations and judged by TLC; a fresh record must carry only the attributes its creating call names; bounded model explored with one worker (deterministic graph). All eight data members of a record are projected and patched. A dynamic attribute spelt like a member ('address_in') is in the key pool; the frame condition distinguishes members from attributes. Dual-stack address spellings in the random histories.",
+    "C19": "Catalogue also decodes every implemented Hytera opcode from generated PDUs with different values and builds them with default arguments; every signature family has a variant with caller-owned bytearrays; clock pass shifts the date by 38 years. Constructor parameters documented as 'number or buffer' get caller-owned buffers, three times over; the burst payload decoder is called twice on one caller-owned buffer for every data type; rejected / odd-ending rate-3/4 streams; every LRRP token by id and by name for both document families. Caller-configured CRC calculators (every switch of BitCrcConfiguration), byteswap_bytearray on caller-owned buffers, ARS responses built from fields serialised / measured / rendered in any order. Register workflow (init / update / digest) with caller configurations, the register tracked across digests; VBPTC column-parity helpers on caller-owned columns; numeric writers one at a time on rounding ties; the process-wide numeric context (decimal, numpy error state) is a watched cell. Presentation calls between parse and encode (mbxml_render). Clause EqualArgumentsEqualResults (equal messages in buffers with different pad bits); default-built PDU completed by its owner.",
+    "C20": "Source states of replayed edges are set up with the specification's own operations and judged by TLC; a fresh record must carry only the attributes its creating call names; bounded model explored with one worker (deterministic graph). All eight data members of a record are projected and patched. A dynamic attribute spelt like a member ('address_in') is in the key pool; the frame condition distinguishes members from attributes. Dual-stack address spellings in the random histories. Operation save_new (save of a repeater the storage does not hold adds nothing); clause OneRecordPerAddress (open known finding: a patch re-addressing a record onto an occupied address).",
 }
 
 # pid -> (design_ref, technique, level text, level note)
